@@ -38,7 +38,7 @@ def main(argv=None):
 
     import dvc_data
 
-    want = os.path.realpath("/repo/src")
+    want = os.path.realpath(os.environ.get("VERIF_REPO", "/repo") + "/src")
     if not os.path.realpath(dvc_data.__file__).startswith(want):
         print(f"HARNESS-ERROR dvc_data imported from {dvc_data.__file__}", flush=True)
         return 2
